@@ -144,7 +144,8 @@ Print Assumptions C05_source_arr_spec_is_the_models.
    allocation schedule.  The call returns a status and nothing else; on success the handle points at the new struct and
    everything that was allocated follows the caller's heap; on failure the handle is null and every block the call
    allocated has been released (the heap is the caller's followed by released blocks only); without allocation failures
-   status and stream position are the model's va_read. *)
+   status and stream position are the model's va_read; with allocation failures, a read that still succeeds has consumed
+   exactly what the model consumes (allocation failures never shift the stream position of a successful read). *)
 From Sbdf Require Import ImpFactsReadVa.
 Theorem C05_source_va_read : forall rf rp fo po k sx m h, Forall byte sx -> (forall t s2, sx <> 3 :: t :: s2) ->
   exists f0, forall f, (f0 <= f)%nat -> exists st fin,
@@ -155,7 +156,9 @@ Theorem C05_source_va_read : forall rf rp fo po k sx m h, Forall byte sx -> (for
               | Err e => st = e end) /\
     ((st = SBDF_OK /\ Imp.lookup "*handle" (vars fin) = Some (VCell (List.length h) 0) /\
         exists blk newb, Imp.lookup cells_var (vars fin) = Some (VHeap (h ++ Some blk :: newb)) /\ va_rel (inb fin) (h ++ Some blk :: newb) (List.length h) (h ++ None :: nones (List.length newb))) \/
-     (st < 0 /\ Imp.lookup "*handle" (vars fin) = Some VNull /\ exists j, Imp.lookup cells_var (vars fin) = Some (VHeap (h ++ nones j)))).
+     (st < 0 /\ Imp.lookup "*handle" (vars fin) = Some VNull /\ exists j, Imp.lookup cells_var (vars fin) = Some (VHeap (h ++ nones j)))) /\
+    (* under ANY allocation schedule: a read that succeeds has consumed exactly what the model's va_read consumes *)
+    (st = SBDF_OK -> match Va.va_read false None sx with Ok (_, sM) => Imp.lookup strm_var (vars fin) = Some (VBytes sM) | Err _ => False end).
 Proof. exact va_read_source. Qed.
 Print Assumptions C05_source_va_read.
 
